@@ -152,6 +152,8 @@ def layers(tier):
                     'same attribute lists requested while the join attribute changes between consecutive calls '
                     '(ls/p on the left, rs/w on the right): projection positions depend on which attribute is joined on',
                     min_nontrivial=100, chunksize=1))
+    from checks.configx import filter_config_layer
+    Ls.append(filter_config_layer(['C11'], quick))
     from checks.configx import config_layer
     Ls.append(config_layer(['C11'], quick))
     return Ls
